@@ -76,6 +76,17 @@ impl EcVerifyingKey {
 pub mod p256 {
     #[allow(unused_imports)] use super::*;
     pub type PublicKey = EcPublicKey;
+    #[verifier::external_body] pub struct SecretKey { v: u8 }
+    impl SecretKey {
+        /// the secret scalar as the curve's fixed-size big-endian field element
+        pub uninterp spec fn octets(&self) -> Seq<u8>;
+        #[verifier::external_body]
+        pub fn from_slice(slice: &[u8]) -> (r: core::result::Result<SecretKey, EcError>)
+            ensures
+                (r is Ok) == ((slice@.len() == 32 || 24 <= slice@.len() < 32) && ec_valid_scalar(0, lpad(slice@, 32))),
+                r matches Ok(k) ==> k.octets() == lpad(slice@, 32),
+        { unimplemented!() }
+    }
     pub mod ecdsa {
         #[allow(unused_imports)] use super::super::*;
         pub struct Signature;
@@ -97,6 +108,17 @@ pub mod p256 {
 pub mod p384 {
     #[allow(unused_imports)] use super::*;
     pub type PublicKey = EcPublicKey;
+    #[verifier::external_body] pub struct SecretKey { v: u8 }
+    impl SecretKey {
+        /// the secret scalar as the curve's fixed-size big-endian field element
+        pub uninterp spec fn octets(&self) -> Seq<u8>;
+        #[verifier::external_body]
+        pub fn from_slice(slice: &[u8]) -> (r: core::result::Result<SecretKey, EcError>)
+            ensures
+                (r is Ok) == ((slice@.len() == 48 || 24 <= slice@.len() < 48) && ec_valid_scalar(1, lpad(slice@, 48))),
+                r matches Ok(k) ==> k.octets() == lpad(slice@, 48),
+        { unimplemented!() }
+    }
     pub mod ecdsa {
         #[allow(unused_imports)] use super::super::*;
         pub struct Signature;
@@ -118,6 +140,17 @@ pub mod p384 {
 pub mod p521 {
     #[allow(unused_imports)] use super::*;
     pub type PublicKey = EcPublicKey;
+    #[verifier::external_body] pub struct SecretKey { v: u8 }
+    impl SecretKey {
+        /// the secret scalar as the curve's fixed-size big-endian field element
+        pub uninterp spec fn octets(&self) -> Seq<u8>;
+        #[verifier::external_body]
+        pub fn from_slice(slice: &[u8]) -> (r: core::result::Result<SecretKey, EcError>)
+            ensures
+                (r is Ok) == ((slice@.len() == 66 || 24 <= slice@.len() < 66) && ec_valid_scalar(2, lpad(slice@, 66))),
+                r matches Ok(k) ==> k.octets() == lpad(slice@, 66),
+        { unimplemented!() }
+    }
     pub mod ecdsa {
         #[allow(unused_imports)] use super::super::*;
         pub struct Signature;
@@ -139,6 +172,17 @@ pub mod p521 {
 pub mod k256 {
     #[allow(unused_imports)] use super::*;
     pub type PublicKey = EcPublicKey;
+    #[verifier::external_body] pub struct SecretKey { v: u8 }
+    impl SecretKey {
+        /// the secret scalar as the curve's fixed-size big-endian field element
+        pub uninterp spec fn octets(&self) -> Seq<u8>;
+        #[verifier::external_body]
+        pub fn from_slice(slice: &[u8]) -> (r: core::result::Result<SecretKey, EcError>)
+            ensures
+                (r is Ok) == ((slice@.len() == 32 || 24 <= slice@.len() < 32) && ec_valid_scalar(3, lpad(slice@, 32))),
+                r matches Ok(k) ==> k.octets() == lpad(slice@, 32),
+        { unimplemented!() }
+    }
     pub mod ecdsa {
         #[allow(unused_imports)] use super::super::*;
         pub struct Signature;
@@ -156,4 +200,75 @@ pub mod k256 {
             { unimplemented!() }
         }
     }
+}
+
+//@trusted T7 const_oid::ObjectIdentifier and bytes::Bytes are opaque values here (only carried in the Unknown / Unsupported variants)
+#[verifier::external_body] pub struct ObjectIdentifier { v: u8 }
+#[verifier::external_body] pub struct Bytes { v: Vec<u8> }
+
+//@trusted T5 elliptic_curve::SecretKey::<C>::from_slice (elliptic-curve 0.13.8, src/secret_key.rs:161, read there): Ok exactly for a slice of the field size, or of MIN_SIZE = 24 .. field size - 1 octets which it left-pads with zeros, whose value is a valid scalar of the curve (ec_valid_scalar: non-zero and below the group order - uninterpreted); the key holds that padded value
+pub uninterp spec fn ec_valid_scalar(c: int, octets: Seq<u8>) -> bool;
+
+//@trusted T5 x25519_dalek::StaticSecret::from([u8; 32]) stores the 32 octets as given (little-endian scalar, clamped only when used); T2 `s.iter().rev().copied().collect::<Vec<u8>>()` is the reversed octet string
+pub mod x25519_dalek {
+    #[allow(unused_imports)] use super::*;
+    #[verifier::external_body] pub struct StaticSecret { v: u8 }
+    impl StaticSecret {
+        pub uninterp spec fn octets(&self) -> Seq<u8>;
+        #[verifier::external_body]
+        pub fn from(raw: [u8; 32]) -> (r: StaticSecret) ensures r.octets() == raw@ { unimplemented!() }
+    }
+}
+pub use x25519_dalek::StaticSecret;
+pub fn slice_rev_collect(s: &[u8]) -> (r: Vec<u8>)
+    ensures r@ == s@.reverse()
+{
+    let mut out: Vec<u8> = Vec::new();
+    let mut i: usize = s.len();
+    while i > 0
+        invariant i <= s@.len(), out@.len() == s@.len() - i, forall|j: int| 0 <= j < out@.len() ==> out@[j] == s@[s@.len() - 1 - j],
+        decreases i
+    {
+        i -= 1;
+        out.push(s[i]);
+    }
+    proof { assert(out@ =~= s@.reverse()); }
+    out
+}
+pub fn slice_fwd_collect(s: &[u8]) -> (r: Vec<u8>)
+    ensures r@ == s@
+{
+    let mut out: Vec<u8> = Vec::new();
+    let mut i: usize = 0;
+    while i < s.len()
+        invariant i <= s@.len(), out@ == s@.subrange(0, i as int),
+        decreases s@.len() - i
+    {
+        out.push(s[i]);
+        proof { assert(s@.subrange(0, i as int).push(s@[i as int]) =~= s@.subrange(0, i + 1)); }
+        i += 1;
+    }
+    proof { assert(s@.subrange(0, s@.len() as int) =~= s@); }
+    out
+}
+//@trusted T2 <[T]>::to_vec returns a vector of element-wise clones (for u8: the same bytes)
+pub assume_specification<T: Clone>[<[T]>::to_vec](s: &[T]) -> (r: Vec<T>)
+    ensures r@.len() == s@.len(), forall|i: int| 0 <= i < s@.len() ==> cloned::<T>(s@[i], #[trigger] r@[i]);
+//@trusted T2 BytesMut::from(&[u8]) copies the octets
+#[verifier::external_body] pub struct BytesMut { v: Vec<u8> }
+impl BytesMut {
+    pub uninterp spec fn view(&self) -> Seq<u8>;
+    #[verifier::external_body]
+    pub fn from(s: &[u8]) -> (r: BytesMut) ensures r.view() == s@ { unimplemented!() }
+}
+impl Clone for ECCCurve {
+    #[verifier::external_body]
+    fn clone(&self) -> (r: ECCCurve) ensures r == *self { unimplemented!() }
+}
+
+//@trusted T7 EcdhPublicParams (types/params/public/ecdh.rs:62) is re-declared with all its variants and opaque payloads (only the variant matters to the secret-key readers)
+#[verifier::external_body] pub struct EcdhPayload { v: u8 }
+pub enum EcdhPublicParams {
+    Curve25519Legacy { p: EcdhPayload }, P256 { p: EcdhPayload }, P384 { p: EcdhPayload }, P521 { p: EcdhPayload },
+    Brainpool256 { p: EcdhPayload }, Brainpool384 { p: EcdhPayload }, Brainpool512 { p: EcdhPayload }, Unsupported { p: EcdhPayload },
 }
